@@ -131,8 +131,9 @@ CHECKS = {
        "breaks); inserting blank lines shifts every later line by exactly the number inserted and leaves earlier ones; appending an ordinary comment to a "
        "statement without literals does not change the text the statement readers see; every statement pattern regenerated from the source either "
        "carries the IGNORECASE flag or contains no cased letter, and for every pattern (any regex of the fragment) matching, searching and finditer "
-       "are invariant under case variants of the subject when ignore-case is on. A refutation witness: the comment/`;` scanner mishandles a line with "
-       "both quote kinds (known finding). Continuation gathering and `;` splitting are exercised by a metamorphic oracle: generated programs x random "
+       "are invariant under case variants of the subject when ignore-case is on. Splitting a statement over `&` continuation lines (with or without a leading `&`, with blank, comment and preprocessor "
+       "lines in between) hands the statement readers the same text up to blanks, for any number of pieces (model of get_code_line's forward gathering, "
+       "validated against the implementation on every run). `;` splitting is exercised by a metamorphic oracle: generated programs x random "
        "compositions of the listed transformations, dumps equal modulo the line map.",
   note="Partial. Trusted: Coq kernel, vm_compute, regex translator + engine fidelity, splitlines correspondence. Continuation/`;` handling is metamorphic-differential only.",
   technique="Rocq proof (terminator independence, blank-line shift, comment cut, case invariance of all generated statement patterns) + metamorphic re-layout differential against the server",
